@@ -706,7 +706,9 @@ func Simplify(expression b6.Expression, functions SymbolArgCounts) b6.Expression
 
 func simplifyCall(expression b6.Expression, functions SymbolArgCounts) b6.Expression {
 	call := expression.AnyExpression.(b6.CallExpression)
-	call.Function = Simplify(call.Function, functions)
+	if function := Simplify(call.Function, functions); canBeCalled(function, functions) {
+		call.Function = function
+	}
 
 	for i, arg := range call.Args {
 		call.Args[i] = Simplify(arg, functions)
@@ -720,6 +722,22 @@ func simplifyCall(expression b6.Expression, functions SymbolArgCounts) b6.Expres
 		return e
 	}
 	return expression
+}
+
+// canBeCalled returns true if the VM accepts e as the function of a call:
+// the name of a function, a lambda or another call. Simplifying the function
+// of a call can otherwise leave a lambda argument ('({-> f}()) 1' would
+// become 'f 1', and only function names are looked up there) or a literal
+// ('(keyed "k")()' would become '[k]()') in its place.
+func canBeCalled(e b6.Expression, functions SymbolArgCounts) bool {
+	switch f := e.AnyExpression.(type) {
+	case b6.SymbolExpression:
+		_, ok := functions.ArgCount(f)
+		return ok
+	case b6.LambdaExpression, b6.CallExpression:
+		return true
+	}
+	return false
 }
 
 func simplifyCallWithNoArguments(expression b6.Expression, functions SymbolArgCounts) (b6.Expression, bool) {
@@ -844,32 +862,68 @@ func simplifyCallBuildingTypedQuery(symbol string, call b6.CallExpression) (b6.A
 func simplifyLambda(expression b6.Expression, functions SymbolArgCounts) b6.Expression {
 	lambda := expression.AnyExpression.(b6.LambdaExpression)
 	lambda.Expression = Simplify(lambda.Expression, functions)
-	// '{a -> area a}' is semantically equivalent to 'area'
-	if call, ok := lambda.Expression.AnyExpression.(b6.CallExpression); ok && len(lambda.Args) > 0 {
-		i := 0
-		for i < len(lambda.Args) && i < len(call.Args) {
-			if s, ok := call.Args[i].AnyExpression.(b6.SymbolExpression); ok {
-				if s.String() != lambda.Args[i] {
-					break
-				}
-			} else {
-				break
-			}
-			i++
+	// '{a -> area a}' is semantically equivalent to 'area', and
+	// '{f -> get f "name"}' to 'get "name"', since partial application binds
+	// the trailing arguments.
+	if call, ok := lambda.Expression.AnyExpression.(b6.CallExpression); ok && canEtaReduce(lambda, call, functions) {
+		if len(lambda.Args) == len(call.Args) {
+			return Simplify(call.Function, functions)
 		}
-		if i > 0 {
-			if i == len(call.Args) {
-				return Simplify(call.Function, functions)
-			}
-			s := expression
-			s.AnyExpression = b6.CallExpression{
-				Function: call.Function,
-				Args:     call.Args[i:len(call.Args)],
-			}
-			return simplifyCall(s, functions)
+		s := expression
+		s.AnyExpression = b6.CallExpression{
+			Function: call.Function,
+			Args:     call.Args[len(lambda.Args):len(call.Args)],
 		}
+		return simplifyCall(s, functions)
 	}
 	return expression
+}
+
+// canEtaReduce returns true if the lambda's body is a call that passes every
+// parameter exactly once, in order, as the leading arguments of a known,
+// non-variadic function that receives all of its arguments, and the remaining
+// arguments are values that don't mention the parameters. Anything else
+// (unused or repeated parameters, nested calls that would be evaluated
+// early, functions with a different number of arguments) changes the meaning
+// of the expression.
+func canEtaReduce(lambda b6.LambdaExpression, call b6.CallExpression, functions SymbolArgCounts) bool {
+	n := len(lambda.Args)
+	if n == 0 || len(call.Args) < n {
+		return false
+	}
+	isParameter := func(s string) bool {
+		for _, arg := range lambda.Args {
+			if arg == s {
+				return true
+			}
+		}
+		return false
+	}
+	symbol, ok := call.Function.AnyExpression.(b6.SymbolExpression)
+	if !ok || isParameter(symbol.String()) {
+		return false
+	}
+	if count, ok := functions.ArgCount(symbol); !ok || count != len(call.Args) {
+		return false
+	}
+	if variadic, _ := functions.IsVariadic(symbol); variadic {
+		return false
+	}
+	for i, arg := range call.Args {
+		s, isSymbol := arg.AnyExpression.(b6.SymbolExpression)
+		if i < n {
+			if !isSymbol || s.String() != lambda.Args[i] {
+				return false
+			}
+		} else if isSymbol {
+			if isParameter(s.String()) {
+				return false
+			}
+		} else if _, ok := arg.AnyExpression.(b6.AnyLiteral); !ok {
+			return false
+		}
+	}
+	return true
 }
 
 func simplifyQuery(query b6.Query) b6.Query {
